@@ -211,5 +211,25 @@ Proof.
   - intros [= -> -> ->]. rewrite String.eqb_refl, Z.eqb_refl. simpl. now apply IH.
 Qed.
 
+(* boolean versions, for obligations discharged by computation on generated data *)
+Fixpoint nodupkb (d : dict) : bool :=
+  match d with [] => true | (k, _) :: t => negb (mem t k) && nodupkb t end.
+Lemma nodupkb_spec d : nodupkb d = true -> nodupk d.
+Proof.
+  induction d as [|[k v] t IH]; simpl; auto. intros H. apply andb_prop in H as [A B].
+  split; auto. apply negb_true_iff in A. now apply mem_false.
+Qed.
+Definition deqb (a b : dict) : bool :=
+  forallb (fun k => getd a k =? getd b k) (keys a ++ keys b).
+Lemma deqb_spec a b : deqb a b = true -> forall k, getd a k = getd b k.
+Proof.
+  unfold deqb. rewrite forallb_forall. intros H k.
+  destruct (get a k) as [v|] eqn:Ga.
+  - apply Z.eqb_eq. apply H. apply in_or_app. left. eapply get_in_keys; eauto.
+  - destruct (get b k) as [w|] eqn:Gb.
+    + apply Z.eqb_eq. apply H. apply in_or_app. right. eapply get_in_keys; eauto.
+    + unfold getd. now rewrite Ga, Gb.
+Qed.
+
 (* pointwise equality of dictionaries as finite maps with default 0 *)
 Definition deq (a b : dict) : Prop := forall k, getd a k = getd b k.
